@@ -108,6 +108,22 @@ def bad_index(draw, shape):
     return kind, items
 
 
+def structured_operand(draw, cfg, dt, batch, rows, cols):
+    """a second OPERATOR operand of the given shape from the structured leaf classes (fast paths skip generic validation)"""
+    kinds = ["Dense", "Zero"] + (["Diag", "Identity", "ConstantDiag"] if rows == cols else [])
+    k = draw(st.sampled_from(kinds))
+    batch = tuple(batch)
+    if k == "Dense":
+        return gen.mk_dense(draw, cfg, "any", rows, cols, batch, 1)
+    if k == "Zero":
+        return {"op": "Zero", "sizes": list(batch) + [rows, cols], "dt": dt}
+    if k == "Diag":
+        return {"op": "Diag", "d": gen.flit(draw, cfg, batch + (cols,), 1, 8)}
+    if k == "Identity":
+        return {"op": "Identity", "n": cols, "batch": list(batch), "dt": dt}
+    return {"op": "ConstantDiag", "c": gen.flit(draw, cfg, batch + (1,), 1, 8), "n": cols}
+
+
 @st.composite
 def cases(draw, tier):
     ex = _exclusions()
@@ -131,7 +147,14 @@ def cases(draw, tier):
     m, n = shape[-2], shape[-1]
     batch = tuple(shape[:-2])
     cfg = gen.Cfg(dt=dt)
-    if opn in ("matmul", "solve", "inv_quad", "inv_quad_logdet"):
+    if opn in ("matmul", "rmatmul") and draw(st.integers(0, 2)) == 0:
+        # operator (not tensor) second operand whose inner dimension is wrong (k = 1 is the broadcasting trap)
+        inner = n if opn == "matmul" else m
+        k = draw(st.sampled_from([1, inner + 1] if inner != 1 else [2, 3]))
+        c = draw(st.sampled_from([k, k, 1, 2]))
+        case["mut"] = "op_inner_1" if k == 1 else "op_wrong_inner"
+        case["rhs_op"] = structured_operand(draw, cfg, dt, batch if draw(st.booleans()) else (), k, c) if opn == "matmul" else structured_operand(draw, cfg, dt, batch if draw(st.booleans()) else (), c, k)
+    elif opn in ("matmul", "solve", "inv_quad", "inv_quad_logdet"):
         case["mut"], case["rhs"] = draw(bad_rhs(shape, dt, n))
     elif opn == "rmatmul":
         # left operand Y (.., c, k) with k != m
@@ -165,7 +188,11 @@ def cases(draw, tier):
         if draw(st.booleans()):
             case["rhs"] = gen.flit(draw, cfg, shp, -8, 8)
         else:
-            case["rhs_op"] = gen.mk_dense(draw, cfg, "any", shp[-2], shp[-1], shp[:-2], 1) if draw(st.booleans()) else {"op": "Diag", "d": gen.flit(draw, cfg, shp[:-2] + (shp[-1],), 1, 8)}
+            if draw(st.booleans()):
+                case["rhs_op"] = gen.mk_dense(draw, cfg, "any", shp[-2], shp[-1], shp[:-2], 1) if draw(st.booleans()) else {"op": "Diag", "d": gen.flit(draw, cfg, shp[:-2] + (shp[-1],), 1, 8)}
+            else:
+                case["rhs_op"] = structured_operand(draw, cfg, dt, shp[:-2], shp[-2], shp[-1])
+            case["rev"] = draw(st.booleans())  # other (op) operand first
     elif opn == "add_diagonal":
         kind = draw(st.sampled_from(["too_long", "too_short", "bad_batch"]))
         if kind == "too_long":
@@ -183,9 +210,19 @@ def cases(draw, tier):
         case["dim"] = dim
         case["rhs_op"] = gen.mk_dense(draw, cfg, "any", other[0], other[1], batch, 1)
     elif opn == "expand":
-        kind = draw(st.sampled_from(["batch_not_1", "matrix_changed"]))
+        kind = draw(st.sampled_from(["batch_not_1", "matrix_changed", "fewer_dims", "neg_new_dim", "neg_size"]))
         if kind == "batch_not_1" and batch and any(b > 1 for b in batch):
             tgt = [b + 1 if b > 1 else b for b in batch] + [m, n]
+        elif kind == "fewer_dims" and batch:
+            # a target with fewer dimensions than the operator (trailing sizes compatible)
+            drop = draw(st.integers(1, len(batch)))
+            mat = draw(st.sampled_from([[m, n], [-1, -1]]))
+            tgt = list(batch[drop:]) + mat
+        elif kind == "neg_new_dim":
+            # -1 in a new leading (non-existing) dimension
+            tgt = [-1] + list(batch) + [m, n]
+        elif kind == "neg_size":
+            tgt = [2, -2] + list(batch) + [m, n] if draw(st.booleans()) or not batch else [-2 if i == 0 else b for i, b in enumerate(batch)] + [m, n]
         else:
             kind = "matrix_changed"
             tgt = list(batch) + [m + 1, n]
@@ -236,7 +273,11 @@ def check(case):
         o_ref = refmodel.dense(ro)
 
     # ---- torch's verdict on the dense operand
-    if opn in ("matmul", "solve", "inv_quad", "inv_quad_logdet"):
+    if opn == "matmul" and ro is not None:
+        rejected = _torch_rejects(lambda: torch.matmul(ref, o_ref))
+    elif opn == "rmatmul" and ro is not None:
+        rejected = _torch_rejects(lambda: torch.matmul(o_ref, ref))
+    elif opn in ("matmul", "solve", "inv_quad", "inv_quad_logdet"):
         rejected = _torch_rejects(lambda: torch.matmul(ref, x64))
     elif opn == "rmatmul":
         rejected = _torch_rejects(lambda: torch.matmul(x64, ref))
@@ -280,9 +321,9 @@ def check(case):
     outcome = None
     try:
         if opn == "matmul":
-            res = op @ x
+            res = op @ other_lib
         elif opn == "rmatmul":
-            res = x @ op
+            res = other_lib @ op
         elif opn == "solve":
             res = op.solve(x)
         elif opn == "inv_quad":
@@ -311,11 +352,11 @@ def check(case):
             else:
                 res = op.diagonalization()
         elif opn == "add":
-            res = op + other_lib
+            res = other_lib + op if case.get("rev") else op + other_lib
         elif opn == "sub":
-            res = op - other_lib
+            res = other_lib - op if case.get("rev") else op - other_lib
         elif opn == "mul":
-            res = op * other_lib
+            res = other_lib * op if case.get("rev") else op * other_lib
         elif opn == "add_diagonal":
             res = op.add_diagonal(x)
         elif opn == "cat":
@@ -336,7 +377,7 @@ def check(case):
     finally:
         state.settings.debug._state = None
 
-    labels = ["head:" + head, "op:" + opn, "mut:" + str(mut), "debug:%s" % case["debug"], "outcome:" + outcome[0], "exc:" + str(outcome[1]) if outcome[0] != "value" else "value:" + str(outcome[1])]
+    labels = ["head:" + head, "op:" + opn, "operand:" + (ro["op"] + (":rev" if case.get("rev") else "") if ro is not None else "tensor"), "mut:" + str(mut), "debug:%s" % case["debug"], "outcome:" + outcome[0], "exc:" + str(outcome[1]) if outcome[0] != "value" else "value:" + str(outcome[1])]
     labels += ["class:" + c for c in R.classes(r)]
     if outcome[0] == "value":
         what = case.get("index") if opn == "getitem" else (list(L.shape_of(case["rhs"])) if "rhs" in case else (list(o_ref.shape) if ro is not None else case.get("target")))
